@@ -6,7 +6,12 @@ proof: lean/CashewsVerif/Props/C07.lean  (transition system Model/SingleFlight.l
 tie:   2-5 real callers of functions protected by `thunder_protection` - bare, and through
        `Cache.cache / early / soft (protected=True)` on `mem://` - are driven by the gate scheduler
        (harness/sfsched.py) through recorded schedules: single releases, bursts, cancellation of a caller at
-       any point.  After every scheduler step the observable state (what each caller has received, bodies
+       any point.  The wrapped body returns, raises, or ENDS CANCELLED (its own await is cancelled - not a
+       caller), and later calls for the same key follow.  Besides one-parameter functions there are
+       two-parameter ones `f(s, k)` whose key template leaves `s` out (callers agree on the key and differ in
+       `s`, positional / keyword spelling, plain values and per-request objects) or - default template -
+       contains both; "key" everywhere below is the cache key the arguments render to (sfimpl.key_id), not the
+       argument list.  After every scheduler step the observable state (what each caller has received, bodies
        running / started per key) is compared with
          (a) the Lean model replaying the recorded trace (driver_c07), and
          (b) the property oracle below: the statement of C07 evaluated on the events the real run produced.
@@ -30,6 +35,11 @@ TRUSTED = [
     "asyncio assumption A1 (a task is not preempted between suspension points, so everything `_wrapper` does before its "
     "await is one atomic `call` step) and A2 (cancelling a task that awaits asyncio.shield(t) does not cancel t): modelled, "
     "not proved; exercised against the real event loop by every run of this check",
+    "asyncio assumption A3 (a task whose coroutine ends with CancelledError is done like any other: done-callbacks run, every "
+    "`await asyncio.shield(task)` raises CancelledError in the waiter): modelled as the third outcome `Outcome.cancelled`, "
+    "exercised by the scripted bodies that end cancelled (raise / inner future cancelled / child task cancelled)",
+    "the key of a call is computed by the harness (harness/sfimpl.py key_id: the parameters the template mentions), not by "
+    "cashews' get_cache_key - rendering of keys is C08",
     "hand-written model lean/CashewsVerif/Model/SingleFlight.lean of cashews/decorators/locked.py thunder_protection and of "
     "the protected=True glue in cashews/wrapper/decorators.py, tied to the code by this run's schedule correspondence",
     "harness: virtual event loop (harness/vtime.py), gate scheduler (harness/sched.py, harness/sfsched.py), scripted bodies "
@@ -42,18 +52,31 @@ TRUSTED = [
 # ------------------------------------------------------------------------------------------------------------
 # protocol
 
+def kid_of(case, c):
+    """the key of caller tuple `c`: the cache key its arguments render to (sfimpl.key_id), not the argument list"""
+    return sfimpl.key_id(case["variant"], c[1], sfimpl.arg_of(c))
+
+
+def case_keys(case):
+    return sorted({kid_of(case, c) for c in case["callers"]})
+
+
 def item_of(ent, cinfo, variant):
     kind, i = ent
     if kind == "c":
-        _, key, n, k, val = cinfo[i]
-        return f"c{i}:{key}:{sfimpl.gates_of(variant, n, k)}:{k}{val}"
+        c = cinfo[i]
+        _, k_, n, k, val = c[:5]
+        item = f"c{i}:{sfimpl.key_id(variant, k_, sfimpl.arg_of(c))}:{sfimpl.gates_of(variant, n, k)}:{k}{val}"
+        if sfimpl.TWO_PARAM.get(variant) == "omit":
+            item += f":a{sfimpl.arg_of(c)}"        # the argument the key template leaves out (model: Act.callWith)
+        return item
     return f"x{i}"
 
 
 def model_lines(case, eff):
     callers = [tuple(c) for c in case["callers"]]
     cinfo = {c[0]: c for c in callers}
-    keys = sorted({c[1] for c in callers})
+    keys = case_keys(case)
     lines = ["case caching=%d callers=%s keys=%s" % (
         1 if sfimpl.CACHING[case["variant"]] else 0,
         ",".join(str(c[0]) for c in callers), ",".join(map(str, keys)))]
@@ -67,7 +90,7 @@ def model_lines(case, eff):
 
 def impl_strings(case, run):
     callers = [c[0] for c in case["callers"]]
-    keys = sorted({c[1] for c in case["callers"]})
+    keys = case_keys(case)
     out = []
     for o in run.obs:
         out.append(("," .join(o["callers"][c] for c in callers),
@@ -125,10 +148,16 @@ def compare(case, run, answers):
 # ------------------------------------------------------------------------------------------------------------
 # property oracle: C07 evaluated on what the real run did
 
-PRIORITY = ["cancel_spreads", "two_bodies", "wrong_outcome", "stuck", "exec_cancelled", "exec_lost"]
+PRIORITY = ["cancel_spreads", "two_bodies", "wrong_outcome", "stuck", "exec_cancelled", "exec_lost", "exec_not_started"]
+
+
+def say(code):
+    return {"K": "CancelledError (K: of an execution that ended cancelled)", "C": "its own cancellation (C)"}.get(code, code)
 
 
 def code_of(kind, val):
+    if kind == "k":
+        return "K"          # the execution ended cancelled: its waiters get CancelledError
     return ("R" if kind == "r" else "E") + str(val)
 
 
@@ -150,14 +179,19 @@ def oracle(case, run):
     running = {}        # key -> ids of bodies running
     cancelled = set()
     earlier = set()     # keys that had an execution before
+    last_out = {}       # key -> outcome of the last execution that ended
+    args_by_k = {}      # (all-args variants) first parameter k -> set of keys in flight together
 
-    def new_rec(c, k, outcome, is_hit):
-        r = {"id": c, "key": k, "outcome": outcome, "ended": is_hit, "hit": is_hit, "waiters": [c], "started": False}
+    def new_rec(c, k, outcome, is_hit, arg=0):
+        r = {"id": c, "key": k, "outcome": outcome, "ended": is_hit, "hit": is_hit, "waiters": [c], "started": False,
+             "arg": arg}
         recs[c] = r
         inflight[k] = r
         expected[c] = r
         if k in earlier:
             hit("refill_after_finish")
+            if last_out.get(k) == "K":
+                hit("call_after_execution_ended_cancelled")
         earlier.add(k)
         return r
 
@@ -167,39 +201,44 @@ def oracle(case, run):
             if len(ev[1]) >= 2:
                 hit("burst")
         elif t == "call":
-            _, c, k = ev
+            _, c, k, arg = ev
             r = inflight.get(k)
             if r is not None:
                 expected[c] = r
                 r["waiters"].append(c)
                 hit("late_join" if r["ended"] else "join")
+                if arg != r["arg"]:
+                    hit("join_differs_in_argument_outside_key")
                 if r.get("body_done") and not r["ended"]:
                     hit("join_after_body_before_store")
                 elif not r["started"] and not r["hit"]:
                     hit("join_before_body_started")
             elif caching and k in cache_val:
-                new_rec(c, k, code_of("r", cache_val[k]), True)
+                new_rec(c, k, code_of("r", cache_val[k]), True, arg)
                 hit("cache_hit")
             else:
-                _, _, n, kind, val = script[c]
-                new_rec(c, k, code_of(kind, val), False)
+                _, _, n, kind, val = script[c][:5]
+                new_rec(c, k, code_of(kind, val), False, arg)
+                if any(k2 != k and k2 >= 100 and (k2 - 100) // 10 == (k - 100) // 10 and not r2["ended"]
+                       for k2, r2 in inflight.items()) and k >= 100:
+                    hit("same_k_other_argument_in_key_runs_separately")
         elif t == "start":
             _, x, k = ev
             r = recs.get(x)
             if r is None or r["key"] != k or r["started"]:
                 # a body started for a call that, by the property, had to share an execution in flight (or hit)
-                _, _, n, kind, val = script[x]
+                _, _, n, kind, val = script[x][:5]
                 old = expected.get(x)
                 if old is not None and x in old["waiters"] and old["id"] != x:
                     old["waiters"].remove(x)
                 r = {"id": x, "key": k, "outcome": code_of(kind, val), "ended": False, "hit": False, "waiters": [x],
-                     "started": False}
+                     "started": False, "arg": sfimpl.arg_of(script[x])}
                 recs[x] = r
                 expected[x] = r
                 if k not in inflight or inflight[k]["ended"]:
                     inflight[k] = r
             if r["hit"]:           # the property allows a hit to be served without a body; if a body does run, its script counts
-                _, _, n, kind, val = script[x]
+                _, _, n, kind, val = script[x][:5]
                 r["outcome"] = code_of(kind, val)
             r["started"] = True
             r["hit"] = False
@@ -221,7 +260,12 @@ def oracle(case, run):
                 else:
                     r["ended"] = True
                 r["outcome"] = code_of(kind, val)
+                last_out[k] = r["outcome"]
                 live = [w for w in r["waiters"] if w not in cancelled]
+                if kind == "k" and how == "ok":
+                    hit("execution_ended_cancelled")
+                    if len(live) >= 2:
+                        hit("cancelled_outcome_fanout")
                 if not live:
                     hit("orphan_execution_finished")
                 if kind == "e" and len(live) >= 2:
@@ -268,18 +312,29 @@ def oracle(case, run):
         if c in cancelled:
             continue          # what the cancelled caller itself sees is the model's business, not the property's
         r = expected.get(c)
-        if fin == "C":
-            viol.append(("cancel_spreads", f"caller {c} was cancelled although only callers {sorted(cancelled)} were"))
+        if fin == "C" or (fin == "K" and (r is None or (r["outcome"] != "K" and any(w in cancelled for w in r["waiters"])))):
+            viol.append(("cancel_spreads", f"caller {c} ended with CancelledError although only callers {sorted(cancelled)} were "
+                                           f"cancelled" + ("" if r is None else f" and the execution it shares (started by caller "
+                                                           f"{r['id']} for key {r['key']}) delivered {r['outcome']}")))
         elif fin == "W" or fin == "N":
             viol.append(("stuck", f"caller {c} never received a result"))
         elif r is None:
             viol.append(("wrong_outcome", f"caller {c} finished with {fin} without having called"))
         elif fin != r["outcome"]:
-            viol.append(("wrong_outcome", f"caller {c} (key {r['key']}) received {fin}, but the execution it had to share "
-                                          f"(started by caller {r['id']} for key {r['key']}) delivered {r['outcome']}"))
+            if not r["started"] and not r["hit"]:
+                viol.append(("wrong_outcome", f"caller {c} received {say(fin)}: nothing was in flight for key {r['key']} when caller "
+                                              f"{r['id']} called, so that call had to start a new execution (script: "
+                                              f"{r['outcome']}), but no body was started for it - the call was served by "
+                                              f"something that was already over"))
+            else:
+                viol.append(("wrong_outcome", f"caller {c} (key {r['key']}) received {say(fin)}, but the execution it had to share "
+                                              f"(started by caller {r['id']} for key {r['key']}) delivered {r['outcome']}"))
     for x, r in recs.items():
         if r["started"] and not r["ended"]:
             viol.append(("exec_lost", f"the execution started by caller {x} never ran to its end"))
+        if not r["started"] and not r["hit"] and not run.stuck:
+            viol.append(("exec_not_started", f"caller {x} called with key {r['key']} while nothing was in flight and nothing was "
+                                             f"stored for it, but no execution of the body was started"))
     viol.sort(key=lambda v: PRIORITY.index(v[0]))
     return viol, stats
 
@@ -289,7 +344,8 @@ def oracle(case, run):
 
 def explicit(case, run):
     """the same run as a case with an explicit schedule (replays without choice points / cancel budget)"""
-    return {"variant": case["variant"], "callers": [list(c) for c in case["callers"]],
+    two = case["variant"] in sfimpl.TWO_PARAM
+    return {"variant": case["variant"], "callers": [list(c) if two else list(c)[:5] for c in case["callers"]],
             "schedule": [[k, [list(e) for e in a]] if k == "go" else [k, a] for k, a in run.eff]}
 
 
@@ -343,6 +399,16 @@ def shrink(case, sig):
             if fails(cand):
                 cur = cand
                 changed = True
+                break
+    # smaller arguments outside the key (two-parameter variants)
+    for idx in range(len(cur["callers"])):
+        while len(cur["callers"][idx]) > 5 and cur["callers"][idx][5] > 0:
+            cs = [list(c) for c in cur["callers"]]
+            cs[idx][5] -= 1
+            cand = dict(cur, callers=cs)
+            if fails(cand):
+                cur = cand
+            else:
                 break
     # fewer suspension points
     for idx in range(len(cur["callers"])):
@@ -411,9 +477,13 @@ def gen_case(rng, variant):
     callers = []
     for i in range(1, m + 1):
         key = 0 if rng.random() < 0.5 else rng.randrange(nk)
-        kind = "r" if rng.random() < 0.65 else "e"
+        p = rng.random()
+        kind = "r" if p < 0.6 else ("e" if p < 0.82 else "k")
         val = 10 + i if kind == "r" else rng.randrange(3)
-        callers.append([i, key, rng.randrange(4), kind, val])
+        c = [i, key, rng.randrange(4), kind, val]
+        if variant in sfimpl.TWO_PARAM:
+            c.append(rng.randrange(3))
+        callers.append(c)
     ents = [("c", c[0]) for c in callers] + [("x", c[0]) for c in callers]
     sched = []
     ncancel = 0
@@ -432,10 +502,26 @@ def gen_case(rng, variant):
 
 def programs(thorough: bool):
     """(callers, variants) for the exhaustive part: every interleaving x every (caller, point) of one cancellation"""
-    V = sfimpl.VARIANTS
+    V = sfimpl.OLD_VARIANTS
+    ALL = sfimpl.VARIANTS
+    TWO = list(sfimpl.TWO_PARAM)
     progs = []
     outs = [("r", 7), ("e", 1)]
     if not thorough:
+        # the body ENDS CANCELLED (three ways), a second caller of the same key arrives at every possible moment -
+        # while it runs (shares the CancelledError) or after it is over (must start a new execution); every variant once
+        combos = list(itertools.product([0, 1], range(sfimpl.CANCEL_MODES)))
+        per = -(-len(ALL) // len(combos))
+        for j, (n, mode) in enumerate(combos):
+            vs = [ALL[(j * per + t) % len(ALL)] for t in range(per)]
+            two = [[1, 0, n, "k", mode, 1], [2, 0, 1, "r", 8, 2]]
+            progs.append((two, vs))
+        progs.append(([[1, 0, 1, "k", 1], [2, 0, 0, "e", 2], [3, 0, 1, "r", 9]], ["bare", "soft", "cache_lock"]))
+        # calls that agree on the key but differ in the argument the key template leaves out (omit) / calls that differ in
+        # an argument that IS in the (default) key (all)
+        progs.append(([[1, 0, 1, "r", 7, 0], [2, 0, 1, "e", 1, 1]], TWO))
+        progs.append(([[1, 0, 1, "r", 7, 0], [2, 0, 0, "k", 1, 1], [3, 0, 1, "r", 9, 0]],
+                      ["bare_omit", "cache_omit_obj", "cache_default2"]))
         i = 0
         for n, (kind, val) in itertools.product([0, 1, 2], outs):
             progs.append(([[1, 0, n, kind, val], [2, 0, 1, "r", 8]], [V[i % len(V)], V[(i + 3) % len(V)]]))
@@ -475,6 +561,26 @@ def programs(thorough: bool):
         progs.append((split(m, 0), gated))
     for j, (kind, val) in enumerate(outs):
         progs.append((same_key(4, 0, kind, val, 0), [gated[j % len(gated)]]))
+    # --- the body ends cancelled; arguments outside / inside the key ---------------------------------------------
+    plain_all = [v for v in ALL if not sfimpl.GATED[v]]
+    gated_all = [v for v in ALL if sfimpl.GATED[v]]
+    for n, mode in itertools.product(range(3), range(sfimpl.CANCEL_MODES)):
+        progs.append(([[1, 0, n, "k", mode, 1], [2, 0, (n + 1) % 3, "r", 8, 2]], plain_all))
+        if n < 2:
+            progs.append(([[1, 0, n, "k", mode, 1], [2, 0, n, "e", 2, 2]], gated_all))
+    for n, mode in itertools.product(range(2), range(sfimpl.CANCEL_MODES)):
+        progs.append(([[1, 0, n, "k", mode, 0], [2, 0, 1, "r", 8, 1], [3, 0, 0, "k", (mode + 1) % 3, 0]], plain_all))
+    progs.append(([[1, 0, 1, "k", 1, 0], [2, 0, 0, "r", 8, 1], [3, 1, 1, "k", 2, 0], [4, 0, 1, "e", 1, 2]],
+                  ["bare", "cache", "early_omit", "soft_omit"]))
+    plain_two = [v for v in TWO if not sfimpl.GATED[v]]
+    for m in (2, 3):
+        for n, (kind, val) in itertools.product(range(3 if m == 2 else 2), outs + [("k", 1)]):
+            cs = [[i, 0, (n if i == 1 else (n + i) % 3), (kind if i % 2 else "r"), (val if i % 2 else 10 + i), (i - 1) % 2]
+                  for i in range(1, m + 1)]
+            progs.append((cs, plain_two))
+    progs.append(([[1, 0, 1, "r", 7, 0], [2, 0, 0, "e", 1, 1]], [v for v in TWO if sfimpl.GATED[v]]))
+    progs.append(([[1, 0, 1, "r", 7, 0], [2, 0, 1, "e", 1, 1], [3, 1, 0, "r", 9, 0], [4, 0, 0, "k", 0, 2]],
+                  ["bare_omit", "cache_omit", "cache_default2", "early_omit_obj"]))
     return progs
 
 
@@ -516,7 +622,8 @@ def run(chk: Check) -> int:
                 interesting[k] = interesting.get(k, 0) + 1
             max_conc = max([max_conc] + list(r.maxrun.values()))
             nontrivial = any(k in stats for k in ("join", "late_join", "join_after_body_before_store", "cancel_one_of_several_waiters", "cancel_last_waiter",
-                                                  "cancel_creator", "orphan_execution_finished", "exception_fanout"))
+                                                  "cancel_creator", "orphan_execution_finished", "exception_fanout",
+                                                  "execution_ended_cancelled", "join_differs_in_argument_outside_key"))
             if nontrivial:
                 distinct.add(json.dumps([case["variant"], case["callers"], r.eff], sort_keys=True, default=list))
             if len(samples) < 4 and nontrivial and "cancel_one_of_several_waiters" in stats and len(r.eff) <= 8 \
@@ -608,7 +715,8 @@ def run(chk: Check) -> int:
                 "the gate scheduler + replayed on the Lean driver + judged by the property oracle. Non-trivial iff the run reached "
                 "at least one of: a call joining an execution in flight (join / late_join), a cancellation of a waiting caller "
                 "(one of several waiters, last waiter, creator), an execution finishing with every waiter cancelled, an exception "
-                "delivered to >= 2 callers; distinct = distinct (variant, callers, effective trace)",
+                "delivered to >= 2 callers, an execution that ended cancelled, a call joining an execution started with a different "
+                "value of an argument outside the key; distinct = distinct (variant, callers, effective trace)",
         "samples": samples,
         "exhaustive": bool(complete),
         "exhaustive_subspaces": {
@@ -632,7 +740,10 @@ def run(chk: Check) -> int:
         "partial": "asyncio itself is not modelled (A1, A2 are assumptions exercised, not proved); cancellation is delivered at "
                    "scheduler granularity (between event-loop quiescent points), not inside the few loop iterations between a task's "
                    "completion and its done-callbacks; more than 5 callers / 3 keys / 3 suspension points, passage of time "
-                   "(cache expiry during a run) and the redis backend are not sampled",
+                   "(cache expiry during a run) and the redis backend are not sampled; an execution task cancelled from OUTSIDE "
+                   "(somebody holding the task object calls .cancel()) is not scripted - only bodies that end cancelled by "
+                   "themselves; key templates are limited to 'leaves one parameter out' / 'default: all parameters' of a "
+                   "two-parameter function (key rendering in general is C08)",
     })
     chk.assumptions.extend(TRUSTED)
     return chk.finish(proof)
